@@ -39,6 +39,12 @@ def keys_for(rng, uni, dims, k):
                                              ["L", l0, ["dim", subs[l0]]]]))
         out.append(dict(form="dict", entries=[["L", l0, ["list", [uni[l0]["items"][-1]]]], ["N", l1, ["dim", subs[l1]]]]))
         out.append(dict(form="dict", entries=[["L", l0, ["single", uni[l0]["items"][0]]], ["L", l1, ["dim", subs[l1]]]]))   # single FIRST item, kept dims, subset
+        # the same selections with the dict written against the dimension order (subset / list on the LAST dimension first)
+        out.append(dict(form="dict", entries=[["L", l1, ["dim", subs[l1]]], ["L", l0, ["single", uni[l0]["items"][-1]]]]))
+        out.append(dict(form="dict", entries=[["N", l1, ["list", list(uni[l1]["items"][-2:])]], ["L", l0, ["single", uni[l0]["items"][0]]]]))
+        # a tuple whose two items of one dimension are separated by an item of another one
+        if len(uni[l0]["items"]) >= 2:
+            out.append(dict(form="tuple", items=[uni[l0]["items"][0], uni[l1]["items"][-1], uni[l0]["items"][-1]]))
     return out
 
 
@@ -107,6 +113,24 @@ def generate(tier, rng):
                             rhs = dict(rhs, arr=dict(rhs["arr"], values=[v + 1000 * s for v in rhs["arr"]["values"]]))
                         steps.append(dict(op="set", key=key, rhs=rhs))
                     cases.append(dict(stream="history", uni=u2, arr=tarr, steps=steps))
+    # subsets of a 4-item dimension in an order that is neither ascending nor descending (and lists naming an item twice):
+    # every source entry must land under its own label, and nothing outside the named items may change
+    u4 = mk_universe((4, 2), "ab")
+    it = u4["a"]["items"]
+    for tdims in (["a"], ["a", "b"], ["b", "a"]):
+        tarr = dict(dims=tdims, values=[j + 1 for j in range(nelem(u4, tdims))], layout="C")
+        for order in ([0, 2, 1, 3], [0, 2, 1], [1, 3, 2], [3, 1, 2, 0], [1, 0, 3, 2], [0, 1, 3]):
+            key = dict(form="dict", entries=[["L", "a", ["dim", subdim(u4, "a", [it[i] for i in order])]]])
+            u2 = _with_sub(u4, key)
+            rd = [d["letter"] for d in region_dims(u2, tdims, normalise(u2, tdims, key)[1])]
+            for sd in (rd, rd[::-1]):
+                cases.append(dict(stream="exact", uni=u2, arr=tarr, steps=[dict(op="set", key=key, rhs=dict(kind="arr", arr=dict(
+                    dims=sd, values=[100 + 7 * j for j in range(nelem(u2, sd))], layout="C")))]))
+            shp = [len(u2[l]["items"]) for l in rd]
+            cases.append(dict(stream="exact", uni=u2, arr=tarr, steps=[dict(op="set", key=key, rhs=dict(kind="nd", shape=shp, values=[500 + j for j in range(int(np.prod(shp)))]), mutate=True)]))
+        for rep in ([0, 0, 2], [1, 3, 3], [0, 2, 2], [3, 1, 1, 2]):
+            key = dict(form="dict", entries=[["L", "a", ["list", [it[i] for i in rep]]]])
+            cases.append(dict(stream="exact", uni=u4, arr=tarr, steps=[dict(op="set", key=key, rhs=dict(kind="num", c=42))]))
     return cases
 
 
